@@ -19,6 +19,17 @@ CLAIMS = {
         "formula extraction (reaching definitions + inlining) compared with a specification by random interpretation; wiring/def-use rules over the AST",
         "§4 C01",
     ),
+    "C08": (
+        "Probability accounting between the two halves of each proposal: from sample() a table state x outcome -> probability is extracted "
+        "(threshold chain on the uniform draw, uniform factors of the sub-draws) and compared cell by cell with what log_p() returns on the "
+        "paths handling the same outcome (bootstrap, semi-adapted), so a consistent change of mixture weights is silent and a one-sided one is "
+        "reported; the threshold chain partitions [0,1); the random arms range over all roots / all subset sizes without replacement; the "
+        "adapted tables are normalised over exactly the enumerated support with one order for dict, vector and list (semi, fully adapted); "
+        "candidates are built on copies on every path; weight formula and last-step correction as in C01.",
+        "Not decided: numeric normalisation; the empirical law of numpy's generator (random, integers, choice, multinomial are trusted).",
+        "path-wise formula extraction from sample() and log_p() and cell-by-cell comparison by random interpretation; reaching-definition (freshness) rule",
+        "§4 C08",
+    ),
     "C02": (
         "Decides the shape of the likelihood recursion (node combine, running log-sum, fold over every child once, agreement of the two "
         "convolution back ends clause by clause incl. floor-before-log and both maxima added back, bottom-up refresh order, uniform grid prior).",
@@ -60,6 +71,31 @@ CLAIMS = {
         "Not decided: uniformity as a probabilistic fact (follows given a uniform Generator.shuffle, trusted).",
         "formula and call-sequence extraction compared with a specification",
         "§4 C09",
+    ),
+    "C10": (
+        "Decides the structural premises of the max-product dynamic programme: index arithmetic of the max-convolution (i over the grid, j in 0..i, "
+        "child[j] + prev[i-j]), value and back-pointer written under the same 'candidate beats current' guard from -inf, the running maximum with "
+        "matching pointer arms, node combine, traceback agreeing with the forward pass (root index grid-1, reversed child order over the same "
+        "successor list, child index read before the decrement), and the output formulas idx/(grid-1) and ccf - sum of children.",
+        "Not decided: optimality itself and the 1e-12 bound (runtime quantities).",
+        "formula / store-event extraction over loop nests with one generic element per loop; specification comparison",
+        "§4 C10",
+    ),
+    "C11": (
+        "Decides the arg-max scan over all chains and entries (no slice, no early exit, direction of the comparison, co-updated pointers, the "
+        "restored tree is the pointed one), topology counting with co-updated maxima, ranking before ids are assigned, the archive filter and "
+        "its sentinel, and that every trace / result key read by the summaries is written by the run.",
+        "Not decided: pandas sort semantics; tie-breaking (both > and >= accepted).",
+        "formula / event extraction compared with a specification; key-set agreement computed from writer and readers",
+        "§4 C11",
+    ),
+    "C12": (
+        "Decides that the graph conversion keeps every node, the labels table is total in both arms (labelled records then outlier fill-in of "
+        "exactly the unseen ones), sample expansion, value fill from the CCF dictionaries (-1 otherwise), the Newick writer, and that table and "
+        "Newick string describe the same tree object in all three commands and the archive.",
+        "Not decided: pandas groupby/explode semantics; CCF range (C10).",
+        "path rules (must-precede), formula / event extraction compared with a specification",
+        "§4 C12",
     ),
     "C13": (
         "Decides the parameters handed to the Beta, Bernoulli and Gamma draws of the Escobar-West update (and their seeded generator), the "
